@@ -106,8 +106,13 @@ func (hs *hasher) walk(v reflect.Value, d int) {
 			hs.add(v.Bytes()...)
 			return
 		}
-		for i := 0; i < v.Len(); i++ {
-			hs.walk(v.Index(i), d+1)
+		// the spare capacity belongs to the shared backing array too: append() writes there without changing len
+		full := v
+		if v.Cap() > v.Len() && v.Cap()-v.Len() <= 64 {
+			full = v.Slice(0, v.Cap())
+		}
+		for i := 0; i < full.Len(); i++ {
+			hs.walk(full.Index(i), d+1)
 		}
 	case reflect.Array:
 		for i := 0; i < v.Len(); i++ {
